@@ -5,7 +5,7 @@ from ..core import (AnalysisError, Unrecognised, path, unparse, norm_test, facts
                     const_str, root_name, no_kill_between)
 from ..events import name_defs, single_def, link_events
 from ..report import Ob
-from .tree_rules import punct_filtered
+from .tree_rules import punct_filtered, punct_verdict
 
 
 # ------------------------------------------------------------------------------------ R-EDIT
@@ -41,8 +41,12 @@ def r_edit(prog, tier):
     cfg = f.cfg
     decs = [n for n in cfg.eval_nodes() if n.kind == 'stmt' and isinstance(n.ast, ast.AugAssign)
             and unparse(n.ast.target).endswith(".data['num']")]
-    ok = False
-    why = 'no `-= 1` on token numbers'
+    ok = None
+    why = 'no `-= 1` on token numbers in a form this rule models'
+    if not decs and not any(isinstance(x, (ast.Assign, ast.AugAssign)) and ".data['num']" in unparse(
+            x.targets[0] if isinstance(x, ast.Assign) else x.target) for x in walk_own(f.node)) \
+            and not prog.opaque_calls(f, f.params[:1]):
+        ok, why = False, 'token numbers are never changed: the tokens to the right keep their old numbers'
     if len(decs) == 1:
         n = decs[0]
         T = unparse(n.ast.target)
@@ -61,7 +65,15 @@ def r_edit(prog, tier):
             # the list is taken from the root, before the leaf is unhooked
             rootvar = unparse(dd[0])[len('terminals('):-1] if over_all else None
         amount = isinstance(n.ast.op, ast.Sub) and unparse(n.ast.value) == '1'
-        ok = bool(g) and src_ok and over_all and amount
+        ok = True if (bool(g) and src_ok and over_all and amount) else None
+        if ok is None:
+            rel = [fa for fa in facts if fa[0] == 'cmp' and T in (fa[1], fa[3])]
+            if rel and not g and all(fa[2] in ('<', '<=', '==', '!=') for fa in rel):
+                ok = False      # the token number is compared, but not with `removed < number`
+            elif not amount:
+                ok = False
+            elif not rel:
+                ok = False      # every token is renumbered, whatever its position
         why = 'tokens with number > the removed one are decremented by 1, over all terminals of the root' if ok else \
             'guard `removed < token number`: %s, removed number taken from the leaf: %s, loop over all terminals: %s, ' \
             'amount 1: %s' % (bool(g), src_ok, over_all, amount)
@@ -72,8 +84,8 @@ def r_edit(prog, tier):
     cfg = f.cfg
     incs = [n for n in cfg.eval_nodes() if n.kind == 'stmt' and isinstance(n.ast, ast.AugAssign)
             and unparse(n.ast.target).endswith(".data['num']")]
-    ok = False
-    why = 'no `+= 1` on token numbers'
+    ok = None
+    why = 'no `+= 1` on token numbers in a form this rule models'
     posvar = None
     if len(incs) == 1:
         n = incs[0]
@@ -86,7 +98,15 @@ def r_edit(prog, tier):
         atts = [e for e in link_events(prog, f) if e.kind == 'ATT']
         before = bool(atts) and all(cfg.dominates(n.loops[-1], a.node) for a in atts) if n.loops else False
         amount = isinstance(n.ast.op, ast.Add) and unparse(n.ast.value) == '1'
-        ok = bool(g) and bool(newnum) and before and amount
+        ok = True if (bool(g) and bool(newnum) and before and amount) else None
+        if ok is None:
+            rel = [fa for fa in facts if fa[0] == 'cmp' and T in (fa[1], fa[3])]
+            if rel and not g and all(fa[2] in ('<', '<=', '==', '!=') for fa in rel):
+                ok = False      # compared with the position, but not with `position <= number` (e.g. strictly)
+            elif not amount:
+                ok = False
+            elif not rel:
+                ok = False
         why = 'tokens numbered >= the position move up by 1, the new token takes the position, then it is attached' \
             if ok else 'guard `position <= token number`: %s, new token numbered with the position: %s, shift before ' \
             'attach: %s, amount 1: %s' % (bool(g), bool(newnum), before, amount)
@@ -133,7 +153,13 @@ def r_edit(prog, tier):
         for n in sites:
             facts = [x[0] for x in facts_at(cfg, n.id) if loops[0].id in cfg.nodes[x[1]].loops]
             lower, upper = _bounds(facts, X, lens, lo, hi_plus)
-            ok = lower and upper
+            ok = True if (lower and upper) else None
+            if ok is None:
+                about = [fa for fa in facts if any(isinstance(t_, str) and X in t_.replace('(', ' ').replace(')', ' ')
+                                                   .replace('[', ' ').replace(']', ' ').replace(',', ' ').split() for t_ in fa[1:])]
+                understood = all(fa[0] == 'cmp' or (fa[0] == 'in' and fa[2].startswith('range(')) for fa in about)
+                if understood and not prog.opaque_calls(f, [X], before=n.id):
+                    ok = False          # every condition on the position is a plain comparison, and they do not bound it
             obs.append(Ob('R-EDIT/RANGE', f.fq, 'effect `%s` happens only for a position inside the sentence (%d..n%s)'
                           % (unparse(n.ast)[:55], lo, '+1' if hi_plus else ''), ok,
                           'every path here has established %d <= %s <= len%s' % (lo, X, '+1' if hi_plus else '') if ok else
@@ -152,9 +178,9 @@ def r_edit(prog, tier):
     if not calls:
         raise Unrecognised('punctuation_delete deletes nothing')
     for (n, sub) in calls:
-        why = punct_filtered(f, sub.args[1], n.id, ('PUNCT',)) if len(sub.args) > 1 else None
-        obs.append(Ob('R-EDIT/TARGET', f.fq, 'only punctuation tokens are deleted (`%s`)' % unparse(sub), why is not None,
-                      why or 'the deleted leaf is not restricted to trees.PUNCT', construct='pd-target', line=n.lineno))
+        vd, why = punct_verdict(prog, f, sub.args[1], n.id, ('PUNCT',)) if len(sub.args) > 1 else (None, 'no leaf argument')
+        obs.append(Ob('R-EDIT/TARGET', f.fq, 'only punctuation tokens are deleted (`%s`)' % unparse(sub), vd,
+                      why, construct='pd-target', line=n.lineno))
         rootarg = unparse(sub.args[0]) == f.params[0]
         obs.append(Ob('R-EDIT/TARGET', f.fq, 'deletion is done on the whole tree', rootarg, unparse(sub),
                       construct='pd-root', line=n.lineno, nontrivial=False))
@@ -188,7 +214,7 @@ def r_edit(prog, tier):
                 elif c[2] == '<':
                     rel = '<' if c[1] == L else '>'
                 seen[op[0]] = rel
-    ok = seen == want
+    ok = True if seen == want else (False if set(seen) == set(want) and None not in seen.values() else None)
     obs.append(Ob('R-EDIT/FILTER', f.fq, 'lt / gt / eq drop exactly the trees shorter / longer / as long as the value', ok,
                   'operators %s' % seen if ok else 'operator table %s differs from %s' % (seen, want),
                   construct='filter-ops', line=f.node.lineno))
@@ -305,8 +331,8 @@ def r_labeledit(prog, tier):
                       construct='ptb-co:' + var, line=pn.lineno))
     # the constituent loop rewrites the label of every constituent
     loops = [n for n in cfg.eval_nodes() if n.kind == 'iter' and unparse(n.ast.iter) == 'trees.preorder(%s)' % f.params[0]]
-    ok = False
-    why = 'loop over all nodes not found'
+    ok = None
+    why = 'loop over all nodes that rewrites the labels not found in a form this rule models'
     for lp in loops:
         v = unparse(lp.ast.target)
         stores = [n for n in cfg.eval_nodes() if n.kind == 'stmt' and lp.id in n.loops and isinstance(n.ast, ast.Assign)
@@ -358,15 +384,16 @@ def r_labelfields(prog, tier):
     lab = ff.params[0]
     read = set(n.attr for n in walk_own(ff.node) if isinstance(n, ast.Attribute) and unparse(n.value) == lab)
     for fld in LABEL_FIELDS:
-        ok = fld in stored and fld in read
+        ok = True if (fld in stored and fld in read) else None
         obs.append(Ob('R-LABELFIELDS', 'trees.format_label', 'component %r set by parse_label is the one format_label reads'
                       % fld, ok, 'parse stores %s, format reads it' % stored.get(fld) if ok else
                       'stored by parse_label: %s, read by format_label: %s' % (fld in stored, fld in read),
                       construct='field:' + fld, nontrivial=False, line=ff.node.lineno))
         if fld in stored and fld not in ('gf_separator',):
             others = [v for k, v in stored.items() if k != fld and k in LABEL_FIELDS]
-            okv = stored[fld].isidentifier() and stored[fld] not in others and \
-                ((fld == 'label') == (stored[fld] == pf.params[0]))
+            okv = True if (stored[fld].isidentifier() and stored[fld] not in others and
+                           ((fld == 'label') == (stored[fld] == pf.params[0]))) else (
+                False if stored[fld].isidentifier() and stored[fld] in others else None)
             obs.append(Ob('R-LABELFIELDS', 'trees.parse_label', 'component %r is filled from its own variable' % fld,
                           okv, '%s.%s = %s' % (ob, fld, stored[fld]), construct='fieldsrc:' + fld, nontrivial=False,
                           line=pf.node.lineno))
@@ -395,6 +422,7 @@ def r_labelfields(prog, tier):
     cfg = ff.cfg
     for (fld, dflt, opt) in (('label', 'DEFAULT_LABEL', 'always_label'), ('gf', 'DEFAULT_EDGE', 'always_gf')):
         ok = False
+        wrong = None
         for n in cfg.eval_nodes():
             if n.kind == 'test' and isinstance(n.ast, ast.BoolOp) and isinstance(n.ast.op, ast.Or) and len(n.ast.values) == 2:
                 a = norm_test(n.ast.values[0], True)
@@ -403,8 +431,17 @@ def r_labelfields(prog, tier):
                         and isinstance(b, ast.Name):
                     bd = [unparse(v) for (_, v) in name_defs(ff, b.id) if isinstance(v, ast.AST)]
                     ok = bd == ["'%s' in %s" % (opt, ff.kwarg)]
+                    if not ok and len(bd) == 1 and bd[0].endswith(' in %s' % ff.kwarg) and bd[0].startswith("'always_"):
+                        wrong = bd[0]
+                elif a in (('cmp', '%s.%s' % (lab, fld), '!=', dflt), ('cmp', dflt, '!=', '%s.%s' % (lab, fld))) \
+                        and isinstance(b, ast.Compare):
+                    ok = unparse(b) == "'%s' in %s" % (opt, ff.kwarg)
+                    if not ok and unparse(b).startswith("'always_") and unparse(b).endswith(' in %s' % ff.kwarg):
+                        wrong = unparse(b)
         obs.append(Ob('R-LABELFIELDS', 'trees.format_label', 'the default literal of %r is dropped unless %s is given' % (fld, opt),
-                      True if ok else None, '`%s.%s != %s or <%s>`' % (lab, fld, dflt, opt) if ok else 'suppression test not recognised',
+                      True if ok else (False if wrong else None), '`%s.%s != %s or <%s>`' % (lab, fld, dflt, opt) if ok else
+                      ('the default of %r is kept under `%s`, the documented switch is %s' % (fld, wrong, opt) if wrong
+                       else 'suppression test not recognised'),
                       construct='dflt:' + fld, line=ff.node.lineno))
     return obs, {}
 
@@ -605,8 +642,8 @@ def r_edge(prog, tier):
                   'neighbour definitions ok %s' % (lo, hi, shape), construct='edge', line=n.lineno))
     # skipping loop: the comparison values are recomputed from the current focus and sibling
     wl = [x for x in cfg.eval_nodes() if x.kind == 'test' and x.owner is not None and isinstance(x.owner, ast.While)]
-    okl = False
-    why = 'sibling-skipping loop not found'
+    okl = None
+    why = 'sibling-skipping loop not found in a form this rule models'
     for w in wl:
         inside = [x for x in cfg.eval_nodes() if w.id in x.loops and x.kind == 'stmt' and isinstance(x.ast, ast.Assign)]
         tn = norm_test(w.ast, True)
@@ -617,18 +654,56 @@ def r_edge(prog, tier):
         if not upd:
             continue
         foc = unparse(upd[0].ast.targets[0])
-        recompute = {}
-        for x in inside:
-            s = unparse(x.ast.value)
-            for who in (foc, sib):
-                if 'trees.terminals(%s)' % who in s:
-                    recompute[who] = cfg.in_every_iteration(w.id, x.id)
-        okl = recompute.get(foc) is True and recompute.get(sib) is True
-        why = 'token spans of focus and sibling are recomputed in every iteration of the skipping loop' if okl else \
-            'the spans compared in the skipping loop are not recomputed per iteration (%s)' % recompute
-    if not okl:
-        # positive evidence: a span used in the loop test is computed before the loop from a variable the loop rebinds
-        okl = False if ('not recomputed' in why) else None
+        # every local that holds the token span of the focus / the sibling
+        verdicts = []
+        for who in (foc, sib):
+            origins = set([who])
+            for x in cfg.eval_nodes():
+                if x.kind == 'stmt' and isinstance(x.ast, ast.Assign) and unparse(x.ast.targets[0]) == who \
+                        and isinstance(x.ast.value, ast.Name):
+                    origins.add(x.ast.value.id)
+            spans = set()
+            for x in cfg.eval_nodes():
+                if x.kind == 'stmt' and isinstance(x.ast, ast.Assign) and isinstance(x.ast.targets[0], ast.Name) \
+                        and any('trees.terminals(%s)' % o in unparse(x.ast.value) for o in origins):
+                    spans.add(x.ast.targets[0].id)
+            grown = True
+            while grown:
+                grown = False
+                for x in cfg.eval_nodes():
+                    if x.kind == 'stmt' and isinstance(x.ast, ast.Assign) and isinstance(x.ast.targets[0], ast.Name) \
+                            and isinstance(x.ast.value, ast.Name) and x.ast.value.id in spans \
+                            and x.ast.targets[0].id not in spans and w.id not in x.loops:
+                        spans.add(x.ast.targets[0].id)
+                        grown = True
+            if not spans:
+                verdicts.append(None)
+                continue
+            rebinds = [x for x in inside if unparse(x.ast.targets[0]) == who]
+            for sp in spans:
+                used = any(w.id in y.loops and y.kind in ('test', 'assume') and sp in [z.id for z in ast.walk(y.ast) if isinstance(z, ast.Name)]
+                           for y in cfg.nodes if y.ast is not None)
+                if not used:
+                    continue
+                defs_in = [x for x in inside if unparse(x.ast.targets[0]) == sp]
+                every = any(cfg.in_every_iteration(w.id, x.id) for x in defs_in)
+                follows = rebinds and all(any(cfg.always_with(r.id, x.id) and cfg.same_loop(r.id, x.id) for x in defs_in) for r in rebinds)
+                if every or follows:
+                    verdicts.append(True)
+                elif not defs_in and rebinds:
+                    verdicts.append(False)      # computed before the loop, the loop rebinds the node, the span stays
+                    why = '`%s` is computed before the skipping loop from `%s`; the loop moves `%s` on but never recomputes ' \
+                          'the span: later iterations compare with the first focus' % (sp, who, who)
+                elif not defs_in and who == sib:
+                    verdicts.append(False)
+                    why = '`%s` is computed before the skipping loop although `%s` changes in every iteration' % (sp, who)
+                else:
+                    verdicts.append(None)
+        if verdicts and all(v is True for v in verdicts):
+            okl = True
+            why = 'the token spans of focus and sibling are up to date whenever they are compared in the skipping loop'
+        elif any(v is False for v in verdicts):
+            okl = False
     obs.append(Ob('R-EDGE', f.fq, 'skipping over adjacent unattached siblings compares the current focus with the current '
                   'sibling', okl, why, construct='edge-skip', line=f.node.lineno))
     return obs, {}
